@@ -148,7 +148,7 @@ def _okta2code_cases():
 def run(chk):
     import numpy as np
     wmo = _wmo()
-    quick = chk.tier == 'quick'
+    quick = chk.size_tier == 'quick'
     Mmax = 512 if quick else 4096
     Mscalar = 96 if quick else 1024
     chk.rule = (f'perc2okta: all (n, M) with 0<=n<=M<={Mmax} (array path) and M<={Mscalar} (scalar paths, Python float and '
